@@ -398,6 +398,7 @@ public :
     //  Mutator methods
     // -----------------------------------------------------------------------
     void incrementErrorCount(void);			// For use by XMLValidator
+    void countEntityExpansion(void);		// For use by DTDScanner
 
     // -----------------------------------------------------------------------
     //  Document scanning methods
